@@ -717,7 +717,16 @@ for (int n = 0; n < count; n++)
     {
       define++;
 
-      const char *param = params + params_ptr[((int)*define) - 1];
+      // A chr(1) in the source text itself is not a parameter marker.
+      const int index = ((uint8_t)*define) - 1;
+
+      if (index < 0 || index >= count)
+      {
+        print_error(asm_context, "Illegal character in define");
+        return nullptr;
+      }
+
+      const char *param = params + params_ptr[index];
 
       if (ptr + strlen(param) >= PARAM_STACK_LEN)
       {
